@@ -562,3 +562,17 @@ add("H1", "keep", NB, "_find_nth", "        n = -n - 1\n", "        n = -1 - n\n
 add("H2", "break", CORE, "GroupBy._build_group_sorted_indexer_numba", "group_starts[i + 1] = group_starts[i] + group_counts[i]", "group_starts[i + 1] = group_starts[i] + group_counts[i + 1]", name="H2 group starts use the next group's count", accept_error=True)
 add("H2", "break", CORE, "GroupBy._build_group_sorted_indexer_numba", "                    indexer[pos] = i\n                    current_pos[k] += 1\n", "                    current_pos[k] += 1\n                    indexer[pos + 1] = i\n", name="H2 position advanced before the write", accept_error=True)
 add("H2", "break", CORE, "GroupBy._build_group_sorted_indexer_numba", "                    current_pos[k] += 1\n", "", name="H2 position never advanced")
+
+# --------------------------------------------------------------------------------------------- E5
+add("E5", "break", EMAS, "_ema_grouped", "out[i] = (x + residuals[k]) / (1 + residual_weights[k])", "out[i] = (x + residuals[k]) / residual_weights[k]", name="E5 denominator misses the current observation")
+add("E5", "break", EMAS, "_ema_grouped_timed", "            residual_weights[k] += 1\n", "            residual_weights[k] += beta\n", name="E5 weight grows by beta instead of 1", accept_error=True)
+add("E5", "break", EMAS, "_ema_adjusted", "            residual += x\n", "", name="E5 numerator never accumulates the observation")
+add("E5", "break", EMAS, "_ema_time_weighted", "out[i] = (x + residual) / (1 + residual_weights)", "out[i] = (x + residual) / (2 + residual_weights)", name="E5 wrong normalisation constant")
+add("E5", "keep", EMAS, "_ema_grouped", "            residual_weights[k] += 1\n            residuals[k] += x\n", "            residuals[k] += x\n            residual_weights[k] += 1\n", name="E5 updates reordered")
+add("E5", "keep", EMAS, "_ema_adjusted", "out[i] = (x + residual) / (1 + residual_weights)", "out[i] = (residual + x) / (residual_weights + 1)", name="E5 operands commuted")
+
+# --------------------------------------------------------------------------------------------- W3
+add("W3", "break", NB, "_rolling_sum_or_mean_1d", "                if not is_null(old_val):\n                    group_sums[key] -= old_val\n                    group_non_null[key] -= 1\n", "                if not is_null(old_val):\n                    group_sums[key] -= old_val\n", name="W3 non-null count not decremented at eviction")
+add("W3", "break", NB, "_rolling_sum_or_mean_1d", "            if not val_is_null:\n                group_non_null[key] += 1\n                group_sums[key] += val\n", "            group_non_null[key] += 1\n            if not val_is_null:\n                group_sums[key] += val\n", name="W3 null values counted as non-null")
+add("W3", "break", NB, "_rolling_max_or_min_1d", "                if not is_null(to_remove):\n                    group_non_null[key] -= 1\n", "                group_non_null[key] -= 1\n", name="W3 evicted nulls decrement the non-null count")
+add("W3", "break", NB, "_rolling_sum_or_mean_1d", "                    group_sums[key] -= old_val\n", "", name="W3 evicted value never leaves the running sum")
